@@ -213,6 +213,9 @@ def body_codes(spec, t, c):
         return [0, 0]
     if kind == "revertall":
         return [2]
+    if kind == "tsis":
+        # block.timestamp after setUp = halmos' initial timestamp (1) + the relative warp of THIS run
+        return [0] if 1 + spec.get("setup_warp", 0) == p else [1]
     if kind == "inv_lt":
         return [1] if c >= p else [0]
     if kind == "inv_ne":
